@@ -154,12 +154,13 @@ Fixpoint scodes_from (k : nat) (cs : list scase) : list (nat * Z) :=
 Definition scodes := scodes_from 0.
 
 (* ------------------------------------------------------------------------------------------------ *)
-(* the write endpoint: what the statement demands of an answer, against the model.  Acknowledged: the stored rows are
-   exactly the rows of accepting the whole body as one block (C06_acknowledged_write_stores_every_line; that the answer
-   does not depend on the cutting is C06_acceptable_body_acknowledged).  Refused: the stored rows are rows of complete
-   lines of the body, in order (C06_write_stores_whole_lines_only).  Whether a body beyond max-body-size is refused is
-   not part of the statement and not compared (the harness counts it). *)
-Definition hcase := (Z * option Z * option Z * bool * bytes * bool * list irow)%type.   (* factor, max-body-size, Content-Length, gzip, decoded body, acknowledged, stored rows by time *)
+(* the write endpoint against serve_write.  By C06_acceptable_body_acknowledged and C06_acknowledged_write_stores_every_line the
+   answer does not depend on the schedule of capacities: acknowledged iff the declared length and (for a body that is not
+   gzip-encoded) the streamed length are within max-body-size, the stream does not break off, and the body is acceptable as
+   one block - then with exactly those rows; by C06_write_stores_whole_lines_only a refused request leaves rows of complete
+   lines of the body only, in order. *)
+Definition hcase := (Z * option Z * option Z * bool * bool * bytes * bool * list irow)%type.
+   (* factor, max-body-size, Content-Length, gzip, the stream breaks off, decoded body, acknowledged, stored rows in line order *)
 
 Definition line_stored (c : cfg) (mult : Z) (l : bytes) : list row :=
   match parse_row dec2f_exact c l with
@@ -178,13 +179,15 @@ Fixpoint subseq_rows (rows : list row) (irows : list irow) {struct rows} : bool 
   end.
 
 Definition cmp_hcase (c : cfg) (hc : hcase) : Z :=
-  let '(mult, limit, declared, gz, body, ack, irows) := hc in
-  if ack then
-    match accept_block dec2f_exact c mult body with
-    | Ok rows => cmp_list cmp_row rows irows
-    | Err => 2
-    end
-  else if subseq_rows (flat_map (line_stored c mult) (split_lines body)) irows then 0 else 2.
+  let '(mult, limit, declared, gz, broken, body, ack, irows) := hc in
+  let toobig := match limit, declared with Some n, Some d => n <? d | _, _ => false end in
+  let over := match limit with Some n => negb gz && (n <? Z.of_nat (List.length body)) | None => false end in
+  let expect := if toobig || over || broken then Err else accept_block dec2f_exact c mult body in
+  match expect, ack with
+  | Ok rows, true => cmp_list cmp_row rows irows
+  | Err, false => if subseq_rows (flat_map (line_stored c mult) (split_lines body)) irows then 0 else 2
+  | _, _ => 2
+  end.
 
 Fixpoint first_hmask (want : Z) (ms : list Z) (hc : hcase) : option Z :=
   match ms with
